@@ -61,7 +61,7 @@ theorem docTreeF_noLoop (hI : InlineNoLoopF) (refs : Option (List Bytes)) (env :
       | ok kids =>
         rw [h2] at h
         simp only at h
-        cases h3 : liftErr Err.value (inlineTreesF true src kids) with
+        cases h3 : liftErr Err.value (inlineTreesF true (refs.getD []).length src kids) with
         | error e3 => rw [h3] at h; cases h; exact liftErr_value_noLoop h3
         | ok is =>
           rw [h3] at h
@@ -92,6 +92,30 @@ theorem renderDocF_noLoop (on : Bool) (pre : Option Bytes) (o : ROpts) (t : GM.N
   · cases h; rfl
   · cases h
 
+theorem parsePhases_noLoop_of (hB : BlockNoLoopF) (hI : InlineNoLoopF) (uc : List (Nat × (Bool × Bool))) (src : Bytes) {e : Err}
+    (hp : parsePhases true true uc src = .error e) : e.isLoop = false := by
+  unfold parsePhases at hp
+  simp only [bind, Except.bind] at hp
+  cases hb : blockPhaseF true true src with
+  | error p =>
+    rw [hb] at hp
+    simp only [liftErr] at hp
+    cases hp
+    have := hB src
+    cases p <;> first | rfl | exact absurd hb this
+  | ok fs =>
+    obtain ⟨f, st⟩ := fs
+    rw [hb] at hp
+    simp only [liftErr] at hp
+    by_cases hc : monitorFires f st (treeOfF f st.nodes st.nodes.length .body 0) = true
+    · simp only [hc, if_true] at hp
+      cases hp; rfl
+    · simp only [hc, Bool.false_eq_true, if_false] at hp
+      cases hd : docTreeF true true (if f.list.isSome = true then some (labelsOf f st) else none)
+          { refs := st.pc.refs, uc := uc } src (treeOfF f st.nodes st.nodes.length .body 0) with
+      | error e2 => rw [hd] at hp; cases hp; exact docTreeF_noLoop hI _ _ src _ _ hd
+      | ok t => rw [hd] at hp; cases hp
+
 theorem convertF_noLoop_of (hB : BlockNoLoopF) (hI : InlineNoLoopF) (pre : Option Bytes) (uc : List (Nat × (Bool × Bool)))
     (o : ROpts) (src : Bytes) {e : Err} (h : convertF true pre uc o src = .error e) : e.isLoop = false := by
   unfold convertF convertFWith at h
@@ -101,23 +125,11 @@ theorem convertF_noLoop_of (hB : BlockNoLoopF) (hI : InlineNoLoopF) (pre : Optio
   | error e1 =>
     rw [hp] at h
     cases h
-    unfold parseDocF parsePhases at hp
+    unfold parseDocF at hp
     simp only [bind, Except.bind] at hp
-    cases hb : blockPhaseF true true src with
-    | error p =>
-      rw [hb] at hp
-      simp only [liftErr] at hp
-      cases hp
-      have := hB src
-      cases p <;> first | rfl | exact absurd hb this
-    | ok fs =>
-      obtain ⟨f, st⟩ := fs
-      rw [hb] at hp
-      simp only [liftErr] at hp
-      cases hd : docTreeF true true (if f.list.isSome = true then some (labelsOf f st) else none)
-          { refs := st.pc.refs, uc := uc } src (treeOfF f (listKids f st) st.nodes st.nodes.length 0) with
-      | error e2 => rw [hd] at hp; cases hp; exact docTreeF_noLoop hI _ _ src _ _ hd
-      | ok t => rw [hd] at hp; cases hp
+    cases hq : parsePhases true true uc src with
+    | error e2 => rw [hq] at hp; cases hp; exact parsePhases_noLoop_of hB hI uc src hq
+    | ok v => rw [hq] at hp; cases hp
 
 /-! ### the accept path of the inline parser -/
 
